@@ -36,7 +36,9 @@ class Transformation(ABC):
     applied to the whole rule.
     """
 
-    processing_item: "ProcessingItemBase" | None = field(init=False, compare=False, default=None)
+    processing_item: "ProcessingItemBase" | None = field(
+        init=False, compare=False, default=None, repr=False
+    )
 
     _pipeline: "ProcessingPipeline" | None = field(
         init=False, compare=False, default=None, repr=False
@@ -109,7 +111,9 @@ class DetectionItemTransformation(PreprocessingTransformation):
     A detection item transformation also marks the item as unconvertible to plain data types.
     """
 
-    processing_item: "ProcessingItem" | None = field(init=False, compare=False, default=None)
+    processing_item: "ProcessingItem" | None = field(
+        init=False, compare=False, default=None, repr=False
+    )
 
     @abstractmethod
     def apply_detection_item(
